@@ -13,6 +13,7 @@ use crate::parser::Parser;
 
 type Documents = HashMap<Key, Content>;
 
+#[derive(Clone)]
 pub struct Database {
     graph: Graph,
     content: Documents,
